@@ -6,6 +6,7 @@ import GV.Model.Decode
 import GV.Spec.Tables
 import GV.Proofs.Decoder
 import GV.Proofs.Vli
+import GV.Proofs.DecodeSlice
 namespace GV.Props.C03
 open GV
 
@@ -38,7 +39,7 @@ theorem early_reject (cfg : DecodeCfg) (d : Decoder) (b : UInt8) (rl : Nat) (res
     (hbig : ¬ rl + 1 + (d.scratch ++ [b]).length ≤ cfg.limit) :
     (stepByte cfg d b).2.2 = some .decodingFailure ∧ (stepByte cfg d b).1.state = .terminal ∧
     (stepByte cfg d b).2.1 = [] := by
-  simp only [stepByte, hs, hv]
+  simp only [stepByte, hs, stepLength, hv]
   rw [if_neg hbig]
   exact ⟨rfl, rfl, rfl⟩
 
@@ -54,6 +55,42 @@ theorem tables_match_standard :
 theorem length_prefix_round_trip (v : Nat) (rest : Bytes) (h : v ≤ maxVli) :
     decodeVli (Spec.encVbi v ++ rest) = .value v rest :=
   decodeVli_encVbi v rest h
+
+/-! ### the decoder that is executed and compared with the implementation
+
+`decodeBytes` is the literal, slice-level transcription of `Decoder::decode_bytes` (it takes the body out of
+the read buffer in one piece and only uses the scratch buffer across calls); it is what `gvdriver` runs and what
+the correspondence check compares with the real decoder.  The theorems above are about the byte-at-a-time
+machine `feed`; the two are the same function on every decoder state that can occur between calls. -/
+
+/-- **The executed decoder is the proven one**, for every slice and every between-calls decoder state. -/
+theorem executed_decoder_is_feed (cfg : DecodeCfg) (d : Decoder) (bs : Bytes) (h : DInv d) :
+    decodeBytes cfg d bs = feed cfg d bs :=
+  decodeBytes_eq_feed cfg d bs h
+
+/-- successive `decode_bytes` calls, one per read (a failed decoder ignores the rest) -/
+def sliceChunks (cfg : DecodeCfg) : Decoder → List Bytes → FeedResult
+  | d, [] => { dec := d, packets := [], err := none }
+  | d, c :: cs => (decodeBytes cfg d c).andThen (fun d' => sliceChunks cfg d' cs)
+
+theorem sliceChunks_eq_feedChunks (cfg : DecodeCfg) : ∀ (chunks : List Bytes) (d : Decoder), DInv d →
+    sliceChunks cfg d chunks = feedChunksB cfg d chunks
+  | [], _, _ => rfl
+  | c :: cs, d, h => by
+    simp only [sliceChunks, feedChunksB, decodeBytes_eq_feed cfg d c h]
+    cases herr : (feed cfg d c).err with
+    | some e => simp [FeedResult.andThen, herr]
+    | none =>
+      have hinv := feed_keeps_inv cfg c d h herr
+      simp only [FeedResult.andThen, herr, sliceChunks_eq_feedChunks cfg cs _ hinv]
+
+/-- **Chunking invariance of the executed decoder**: starting from a fresh decoder (or any between-calls
+    state), every way of splitting a stream into reads yields the packets, verdict and state of the unsplit stream. -/
+theorem executed_decoder_chunk_invariant (cfg : DecodeCfg) (d : Decoder) (h : DInv d) (chunks : List Bytes) :
+    sliceChunks cfg d chunks = decodeBytes cfg d chunks.flatten := by
+  rw [sliceChunks_eq_feedChunks cfg chunks d h, chunk_invariant, decodeBytes_eq_feed cfg d _ h]
+
+theorem fresh_decoder_ok : DInv {} := DInv_init
 
 /-- Non-vacuity: a PUBACK and a SUBACK split in the middle of the length prefix and of the body. -/
 example :
